@@ -7,6 +7,12 @@ Oracle (independent of uxarray): from the face-node table alone
 Checked on the real Grid (fresh grid per access order) and on the builder functions in uxarray.grid.connectivity.
 The main pass runs with numba JIT as configured by the driver (disabled by run_standin.py: njit builders run as plain Python);
 the catalogue part is repeated in a child process with JIT enabled.
+
+Source-supplied edge tables (scenario `<order>:supplied_edges`): the grid is built with Grid.from_topology(...,
+edge_node_connectivity=T) where T lists exactly the oracle pairs E*, once each, but in a row order other than the sorted one of the
+derivation and/or with the two nodes of a row swapped (see `supplied_edge_tables`).  All clauses are evaluated on the tables the grid
+REPORTS after the accesses (grid.edge_node_connectivity may legitimately be T or the re-derived table; face_edge_connectivity must
+index whichever one is reported).
 """
 import random
 
@@ -77,12 +83,15 @@ def _desc(name, faces):
 
 
 # ------------------------------------------------------------------------------------------------ table checks
-def check_tables(rec, scenario, name, faces, enc, n_edge, npf_tab, fec, n_node=None, closed=False, n_max_face_edges=None):
+def check_tables(rec, scenario, name, faces, enc, n_edge, npf_tab, fec, n_node=None, closed=False, n_max_face_edges=None,
+                 extra_inp=None):
     """evaluate all C02 clauses for the four observed tables against the oracle of `faces`"""
     faces = np.asarray(faces)
     n_face, n_max = faces.shape
     corners, pairs, eset = oracle(faces)
     inp = _desc(name, faces)
+    if extra_inp:
+        inp.update(extra_inp)
     enc = np.asarray(enc)
     fec = np.asarray(fec)
     npf_tab = np.asarray(npf_tab)
@@ -150,17 +159,34 @@ def check_tables(rec, scenario, name, faces, enc, n_edge, npf_tab, fec, n_node=N
         rec.check(chi == 2, "closed mesh: n_node-n_edge+n_face==2", scenario, f"Euler characteristic {chi}", inp, chi, 2)
 
 
-def check_grid(rec, scenario, order, mesh):
-    g = grid_of(mesh)
+def check_grid(rec, scenario, order, mesh, supplied=None, variant=None):
+    """`supplied`: an edge table handed to the grid as the source's own edge_node_connectivity (None: edges are derived)"""
+    extra = None
+    if supplied is None:
+        g = grid_of(mesh)
+    else:
+        keep = np.array(supplied, copy=True)
+        g = grid_of(mesh, edge_node_connectivity=supplied)
+        extra = {"edge_node_connectivity_supplied": _small(keep, 80), "variant": variant, "first_access_order": list(ORDERS[order])}
     got = {}
     for attr in ORDERS[order]:
         try:
             v = getattr(g, attr)
         except Exception as e:  # the property promises a result
             rec.check(False, f"{attr} raises {type(e).__name__}", scenario, f"{type(e).__name__}: {e}"[:200],
-                      _desc(mesh["name"], mesh["faces"]))
+                      dict(_desc(mesh["name"], mesh["faces"]), **(extra or {})))
             return
         got[attr] = v
+        if supplied is not None and hasattr(v, "values"):
+            got[attr] = v.values.copy()
+    if supplied is not None:
+        # the edge table the grid reports is the one a fresh grid of the same source reports (the supplied rows, in their order),
+        # whatever was accessed first (C08 wording; it used to be silently replaced by the derived table)
+        rec.check(np.array_equal(g.edge_node_connectivity.values, keep), "edge_node stable across accesses", scenario,
+                  "the supplied edge_node_connectivity was replaced / re-ordered by deriving face_edge_connectivity",
+                  dict(_desc(mesh["name"], mesh["faces"]), **extra))
+        _check_supplied(rec, scenario, mesh, g, got, extra)
+        return
     # read everything again (values must be stable after all tables exist)
     enc = g.edge_node_connectivity.values
     fec = g.face_edge_connectivity.values
@@ -181,6 +207,70 @@ def check_grid(rec, scenario, order, mesh):
     # the face table itself must not have been altered by the derivation
     rec.check(np.array_equal(g.face_node_connectivity.values, mesh["faces"]), "face_node_connectivity unchanged by derivation",
               scenario, "face_node_connectivity differs from the input after deriving edges", inp)
+
+
+def _check_supplied(rec, scenario, mesh, g, got, extra):
+    """grid built with a source-supplied edge table: every clause on the tables the grid reports once all of them exist.
+    (That the reported table IS the supplied one is checked by the caller.)"""
+    enc = g.edge_node_connectivity.values
+    fec = g.face_edge_connectivity.values
+    npf_tab = g.n_nodes_per_face.values
+    n_edge = g.n_edge
+    inp = dict(_desc(mesh["name"], mesh["faces"]), **extra)
+    rec.check(int(got["n_edge"]) == int(n_edge), "n_edge stable across accesses", scenario, "n_edge changed", inp,
+              int(got["n_edge"]), int(n_edge))
+    rec.check(np.array_equal(got["face_edge_connectivity"], fec), "face_edge stable across accesses", scenario,
+              "face_edge_connectivity changed after it was first read", inp)
+    rec.check(g.edge_node_connectivity.dims == ("n_edge", "two") and g.face_edge_connectivity.dims == ("n_face", "n_max_face_edges")
+              and g.n_nodes_per_face.dims == ("n_face",), "UGRID dims of derived tables", scenario,
+              "dimension names", inp, [g.edge_node_connectivity.dims, g.face_edge_connectivity.dims, g.n_nodes_per_face.dims])
+    check_tables(rec, scenario, mesh["name"], mesh["faces"], enc, n_edge, npf_tab, fec, n_node=g.n_node,
+                 closed=mesh.get("closed", False), n_max_face_edges=g.n_max_face_edges, extra_inp=extra)
+    rec.check(np.array_equal(g.face_node_connectivity.values, mesh["faces"]), "face_node_connectivity unchanged by derivation",
+              scenario, "face_node_connectivity differs from the input after deriving edges", inp)
+
+
+def supplied_edge_tables(faces, rng):
+    """edge tables a source could carry for `faces`: exactly the oracle pairs, each once, in non-derived row / node orders"""
+    corners, pairs, eset = oracle(faces)
+    srt = sorted(tuple(sorted(p)) for p in eset)          # (a, b) with a < b, lexicographic == the order of the derivation
+    out = {}
+    out["reversed_sorted"] = [list(r) for r in srt[::-1]]
+    seen, walk = set(), []
+    for c in corners:                                     # face by face, first appearance, directed as traversed
+        for j in range(len(c)):
+            a, b = c[j], c[(j + 1) % len(c)]
+            if frozenset((a, b)) not in seen:
+                seen.add(frozenset((a, b)))
+                walk.append([a, b])
+    out["face_walk_directed"] = walk
+    sh = [list(r) for r in srt]
+    rng.shuffle(sh)
+    out["shuffled_swapped"] = [r[::-1] if rng.random() < 0.5 else r for r in sh]
+    out["sorted_rows_swapped"] = [[b, a] for a, b in srt]
+    rot = len(srt) // 2 or 1
+    out["rotated_sorted"] = [list(r) for r in srt[rot:] + srt[:rot]]
+    return {k: np.array(v, dtype=np.int64).reshape(-1, 2) for k, v in out.items()}
+
+
+SUPPLIED_ORDERS = ("face_edge_first", "edge_node_first", "n_edge_first")
+
+
+def _supplied_pass(rec, rng, distinct, meshes, tag, per_mesh):
+    """`per_mesh` (variant, access order) combinations per mesh, rotating through all of them over the meshes"""
+    n = 0
+    for i, m in enumerate(meshes):
+        tabs = supplied_edge_tables(m["faces"], rng)
+        names = list(tabs)
+        combos = [(v, o) for v in range(len(names)) for o in range(len(SUPPLIED_ORDERS))]
+        for k in range(per_mesh):
+            v, o = combos[(i * 7 + k * (len(SUPPLIED_ORDERS) + 1)) % len(combos)]
+            order = SUPPLIED_ORDERS[o]
+            tab = tabs[names[v]]
+            distinct.add(("sup", m["faces"].tobytes(), m["faces"].shape, tab.tobytes()))
+            check_grid(rec, f"{order}:supplied_edges{tag}", order, m, supplied=tab, variant=names[v])
+            n += 1
+    return n
 
 
 def check_interleaved(rec, scenario, ma, mb):
@@ -350,8 +440,12 @@ def _edges(tier, seed, child):
         scope = "a seeded sample of 400 of the 32580"
     order_names = list(ORDERS)
     nt = 0
+    sup_tabs = []
+    sup_step = 7 if tier == "quick" else 40
     for i, tab in enumerate(tabs):
         nt += 1
+        if i % sup_step == 0:
+            sup_tabs.append(_table_mesh(tab, n_node, i))
         distinct.add(("tab", tab.tobytes(), tab.shape))
         m = _table_mesh(tab, n_node, i)
         check_builders(rec, "builders:small_tables", m["name"], tab)
@@ -359,6 +453,10 @@ def _edges(tier, seed, child):
             check_grid(rec, f"{order}:small_tables", order, m)
         if len(samples) < 3:
             samples.append({"table": tab.tolist()})
+
+    # source-supplied edge tables (rows permuted / node order swapped), three orders of first access
+    n_sup = _supplied_pass(rec, rng, distinct, cat, ":catalogue", 3 if tier == "quick" else 15)
+    n_sup += _supplied_pass(rec, rng, distinct, sup_tabs, ":small_tables", 1 if tier == "quick" else 3)
 
     if child is not None:
         _jit_collect(rec, child)
@@ -369,7 +467,8 @@ def _edges(tier, seed, child):
     bound = (f"{len(cat)} catalogue meshes (small, renumbered, closed, random; tier {tier}) x {len(ORDERS)} first-access orders + builders, "
              f"{len(extra)} meshes with two extra all-padding columns, {len(pairs_)} interleaved grid pairs, and {scope} "
              f"standard-form tables with <=2 faces, <=4 corners, 5 nodes ({nt} tables x 3 access orders + builders); Euler count on the closed "
-             f"catalogue meshes; {jit}")
+             f"catalogue meshes; {n_sup} grids built with a source-supplied edge_node_connectivity (the oracle pairs in reversed, face-walk, "
+             f"shuffled, rotated row order and/or swapped node order) over the catalogue and small tables x 3 access orders; {jit}")
     return result(rec.cases, len(distinct), rec.failures, bound, samples)
 
 
